@@ -8,4 +8,13 @@ for d in props/*/; do
   go test -c -vet=off -tags verif -ldflags=-checklinkname=0 -o bin/props.warm.test "./$d" || exit 1
 done
 rm -f bin/props.warm.test
+# warm the build cache for the race-built checks and for C14's six runner builds
+for d in props/c09 props/c20; do
+  go test -c -race -vet=off -tags verif -ldflags=-checklinkname=0 -o bin/props.warm.test "./$d" || exit 1
+done
+rm -f bin/props.warm.test
+for tags in "verif" "verif noregpool" "verif nocontpool" "verif noregpool nocontpool" "verif noquotas" "verif safepool"; do
+  go build -tags "$tags" -ldflags=-checklinkname=0 -o bin/vrun.warm ./cmd/vrun || exit 1
+done
+rm -f bin/vrun.warm
 echo setup ok
